@@ -4,6 +4,8 @@
 # in /repo is touched:   rsync -a --delete --exclude build --exclude replays --exclude .git /verif/ /tmp/verif-matrix/
 #                        git -C /repo worktree add --detach /tmp/wt/matrix-repo HEAD
 cd /tmp/verif-matrix || exit 2
+# rsync keeps old mtimes: objects rebuilt in the copy after an edit in /verif would look newer than the edited source
+find /tmp/verif-matrix/build -mindepth 1 -delete 2>/dev/null
 export VERIF_REPO=/tmp/wt/matrix-repo
 R=$VERIF_REPO
 OUT=/tmp/mut/final_sweep.tsv
